@@ -603,6 +603,22 @@ Definition ex_truncate (s : state) (i a : nat) : state * Z :=
       else (s, 0%Z)
   | None => na0 s end.
 
+(* 26: keep only the validity BooleanBuffer of an array (into_parts, the rest is dropped)
+   27: keep only the values (Int32Array -> Buffer, BooleanArray -> BooleanBuffer) *)
+Definition ex_take (s : state) (i : nat) (nulls : bool) : state * Z :=
+  match get_slot s i with
+  | Some o =>
+      if (okind o =? 4) || (okind o =? 6) then
+        match ohs o with
+        | [v; n] => if nulls then (set_slot i (Some (mkO 5 [n] [])) s, 0%Z)
+                    else (set_slot i (Some (if okind o =? 4 then mkO 1 [mkH (hreg v) (hoff v) (hlen v) 0 0] [] else mkO 5 [v] [])) s, 0%Z)
+        | [v] => if nulls then na0 s
+                 else (set_slot i (Some (if okind o =? 4 then mkO 1 [mkH (hreg v) (hoff v) (hlen v) 0 0] [] else mkO 5 [v] [])) s, 0%Z)
+        | _ => na0 s
+        end
+      else na0 s
+  | None => na0 s end.
+
 Definition exec (s : state) (p : op) : state * Z :=
   let i := o_a p in let a := o_b p in let b := o_c p in
   match o_code p with
@@ -632,6 +648,8 @@ Definition exec (s : state) (p : op) : state * Z :=
   | 23 => ex_stream_new s i a b
   | 24 => ex_stream_next s i
   | 25 => ex_truncate s i a
+  | 26 => ex_take s i true
+  | 27 => ex_take s i false
   | _ => na0 s
   end.
 
